@@ -143,7 +143,7 @@ func HC06LossStep() {
 	s.lastReportSeqnum = s.lastSeqnum
 	s.seqnumCycles = uint16(vr.NondetInt(0, 3))
 	cyc0 := s.seqnumCycles
-	tl0 := uint32(vr.NondetInt(0, 1000))
+	tl0 := uint32(vr.NondetInt(0, 0xFFFFFF)) // any reachable cumulative count, incl. right below the 24-bit cap
 	s.totalLost = tl0
 	s.setReceived(s.lastSeqnum)
 	d := uint16(vr.NondetInt(1, vr.Param("maxjump", 6)))
@@ -158,6 +158,11 @@ func HC06LossStep() {
 	} else {
 		vr.Assert(rr.LastSequenceNumber == uint32(cyc0)<<16|uint32(seq), "extended highest sequence number")
 	}
-	vr.Assert(rr.TotalLost == tl0+uint32(d-1), "skipped numbers counted lost whatever the bitmap held before")
+	wantTotal := tl0 + uint32(d-1)
+	if wantTotal > 0xFFFFFF {
+		wantTotal = 0xFFFFFF
+		vr.Cover("cumulative lost saturates")
+	}
+	vr.Assert(rr.TotalLost == wantTotal, "skipped numbers counted lost whatever the bitmap held before, saturating at 2^24-1")
 	vr.Assert(uint32(rr.FractionLost) == uint32(d-1)*256/uint32(d), "fraction lost = floor(256*lost/expected)")
 }
